@@ -221,6 +221,9 @@ impl Prop for C14 {
     fn assumptions(&self) -> Vec<String> {
         vec!["addresses printed by debug()/pprint widths and profile outputs are not in the program alphabet".into(), "a child process that dies is reported as inconclusive for that batch unless all variants die alike".into()]
     }
+    fn shrink_iters(&self) -> u32 {
+        80
+    }
     fn workers(&self) -> usize {
         8
     }
